@@ -5,7 +5,11 @@ import random
 import shutil
 import tempfile
 
+import warnings
+
 import common
+
+warnings.filterwarnings('ignore')
 import kdf_ref
 import session
 import wire_ref as W
@@ -146,6 +150,7 @@ def vectors_check(v, tier):
                                     'rule': 'Cookie.tla: half-open count 0..T+2 x (SPI, nonce, address) x cookie lists of length 0..2 over '
                                             '{cookie for any tuple, junk}; class = (armed, #cookies, expected reply, kind of each cookie)',
                                     'samples': samples}
+    return data
 
 
 def initiator_side(v, tier):
@@ -205,6 +210,48 @@ def initiator_side(v, tier):
     v.coverage['initiator_side_sessions'] = n
 
 
+def input_collision(v, data):
+    """Cookie.tla `Collision`: two different (SPI, nonce, address) triples whose plain concatenation is the same octet string - concretely an IPv6 source X
+    with nonce N, and the IPv4 source made of the last four octets of X with nonce N | first twelve octets of X.  A responder that serves both families
+    (one secret) hands the first a cookie; that cookie must NOT be accepted from the second (another nonce AND another address)."""
+    col = data['collision']
+    if not (len(col['a']['addr']) == 2 and len(col['b']['addr']) == 1 and col['a']['spi'] == col['b']['spi']
+            and list(col['b']['nonce']) == list(col['a']['nonce']) + list(col['a']['addr'][:1]) and col['b']['addr'] == col['a']['addr'][1:]):
+        raise common.MachineryError(f'the collision TLC chose has not the expected shape: {col}')
+    x6, n = '2001:db8::c0a8:1', bytes(range(1, 25))
+    conf = {'B': {'B-A': wd.connection_dict('B', 'A'), 'B-X': dict(wd.connection_dict('B', 'C', index=7), my_addr=wd.addr_of('B', True), peer_addr=x6)}}
+    w = wd.World(conf=conf, endpoints=('A', 'B', 'C'), seed=common.SEED, cookie_threshold=0)
+    r = Responder.__new__(Responder)
+    r.w, r.n_fill = w, 0
+    try:
+        import ipaddress
+        spi = b'\x5e' * 8
+
+        def send(data, src, dst):
+            dh0 = len(w.dh_log)
+            reply = w.guarded('B', 'dispatch_message', w.ctl['B'].dispatch_message, bytes(data), ipaddress.ip_address(dst), ipaddress.ip_address(src))
+            return reply, len(w.dh_log) - dh0
+        reply, _ = send(init_request(spi, n, []), x6, wd.addr_of('B', True))
+        kind, ck = r.classify(reply)
+        if kind != 'COOKIE':
+            raise common.MachineryError(f'the dual-stack responder did not hand out a cookie to the IPv6 source ({kind})')
+        # positive control: the cookie is accepted from the source it was handed to
+        reply, _ = send(init_request(spi, n, [ck]), x6, wd.addr_of('B', True))
+        if r.classify(reply)[0] != 'INIT_OK':
+            raise common.MachineryError('the cookie is not accepted from the source it was handed to')
+        x4 = str(ipaddress.ip_address(ipaddress.ip_address(x6).packed[12:]))
+        if x4 != wd.addr_of('A'):
+            raise common.MachineryError('address plan changed')
+        reply, dh = send(init_request(spi, n + ipaddress.ip_address(x6).packed[:12], [ck]), x4, wd.addr_of('B'))
+        kind, _ = r.classify(reply)
+        v.coverage['input_collision'] = {'ipv6_source': x6, 'ipv4_source': x4, 'nonce_octets': [len(n), len(n) + 12], 'reply_to_the_transplanted_cookie': kind}
+        if kind != 'COOKIE' or dh:
+            v.violation(f'a cookie handed to {x6} for a {len(n)}-octet nonce is accepted from {x4} with a {len(n) + 12}-octet nonce (another nonce and another address: '
+                        f'the MAC input is a plain concatenation) - reply {kind}, {dh} DH computations', {}, signature={'component': 'cookie:input-collision'})
+    finally:
+        w.close()
+
+
 def default_threshold(v):
     """The built-in threshold: requests 1..T answered normally (DH each), the following ones with a lone COOKIE and no DH."""
     r = Responder(None)
@@ -227,7 +274,7 @@ def run(tier, replay=None):
     if replay:
         return ikeprop.replay_file(v, replay)
     ikeprop.run(v, ['init_cookie'] if tier == 'quick' else ['init_cookie', 'init3'], limit=2500 if tier == 'quick' else None)
-    vectors_check(v, tier)
+    input_collision(v, vectors_check(v, tier))
     initiator_side(v, tier)
     default_threshold(v)
     return v.finish()
